@@ -6,7 +6,7 @@
    they are obtained from need `requeue_retr_checks_head = true` (and the two
    sibling tests), discharged by [reflexivity] on the regenerated values, so this
    file compiles only when the source has the tests (finding F4 repaired).  While
-   it has not, SchedX/XF4Refuted.v compiles instead and exhibits the violation. *)
+   it had not, notes/XF4Refuted_before_fix.v compiled instead and exhibited the violation. *)
 From Coq Require Import List NArith Bool.
 From LBZ Require Import Gen.Consts SchedX.XState Gen.SchedXTab SchedX.XSet SchedX.XModel SchedX.XInvDefs
   SchedX.XF4 SchedX.XOracle SchedX.XSeq SchedX.XC10.
